@@ -1031,6 +1031,16 @@ func (env *SpecEnv) call(x *CExpr) (SVal, error) {
 			return SVal{}, err
 		}
 		return SVal{T: W.zero(t), Typ: t, Sort: W.sortOf(t)}, nil
+	case "operand": // operand(k): the k-th operand of the statement an assert_at / snapshot_at is anchored at
+		if len(x.Args) != 1 || x.Args[0].Op != "lit-int" || env.block == nil || env.idx >= len(env.block.Instrs) {
+			return SVal{}, fmt.Errorf("operand(k) needs a literal index and an anchored statement")
+		}
+		k, _ := strconv.Atoi(x.Args[0].Int)
+		ops := env.block.Instrs[env.idx].Operands(nil)
+		if k < 0 || k >= len(ops) || ops[k] == nil || *ops[k] == nil {
+			return SVal{}, fmt.Errorf("operand(%d): the anchored statement has %d operands", k, len(ops))
+		}
+		return env.fromVal(e.val(*ops[k]))
 	case "addrof": // addrof(x): the address of a variable captured by reference (closure free variable)
 		if len(x.Args) != 1 || x.Args[0].Op != "id" || env.fr == nil {
 			return SVal{}, fmt.Errorf("addrof needs a variable name")
